@@ -91,6 +91,9 @@ type followerController struct {
 	// The commit offset already applied in the database
 	commitOffset atomic.Int64
 
+	// Offsets of re-delivered entries to acknowledge once they are synced
+	pendingDupAcks []int64
+
 	// Offset of the last entry appended and not fully synced yet on the wal
 	lastAppendedOffset int64
 
@@ -362,6 +365,7 @@ func (fc *followerController) Replicate(stream proto.OxiaLogReplication_Replicat
 
 	closeStreamWg := concurrent.NewWaitGroup(1)
 	fc.closeStreamWg = closeStreamWg
+	fc.pendingDupAcks = nil
 	fc.Unlock()
 
 	go process.DoWithLabels(
@@ -431,6 +435,15 @@ func (fc *followerController) append(req *proto.Append, stream proto.OxiaLogRepl
 			slog.Int64("commit-offset", req.CommitOffset),
 			slog.Int64("offset", req.Entry.Offset),
 		)
+		if req.Entry.Offset > fc.wal.LastOffset() && req.Entry.Offset > fc.commitOffset.Load() {
+			// We have the entry, though it is not synced yet (nor is it covered by a snapshot): it
+			// cannot be acknowledged before it is durable. The sync routine will send the ack, once
+			// the entry is synced
+			fc.pendingDupAcks = append(fc.pendingDupAcks, req.Entry.Offset)
+			fc.syncCond.Signal()
+			return nil
+		}
+
 		if err := stream.Send(&proto.Ack{Offset: req.Entry.Offset}); err != nil {
 			fc.closeStreamNoMutex(err)
 		}
@@ -471,6 +484,21 @@ func (fc *followerController) handleReplicateSync(stream proto.OxiaLogReplicatio
 		// Ack all the entries that were synced in the last round
 		newHeadOffset := fc.wal.LastOffset()
 		for offset := oldHeadOffset + 1; offset <= newHeadOffset; offset++ {
+			if err := stream.Send(&proto.Ack{Offset: offset}); err != nil {
+				fc.closeStream(err)
+				return
+			}
+		}
+
+		// Ack the re-delivered entries that were waiting to become durable
+		fc.Lock()
+		dupAcks := fc.pendingDupAcks
+		fc.pendingDupAcks = nil
+		fc.Unlock()
+		for _, offset := range dupAcks {
+			if offset > newHeadOffset {
+				continue
+			}
 			if err := stream.Send(&proto.Ack{Offset: offset}); err != nil {
 				fc.closeStream(err)
 				return
